@@ -23,12 +23,16 @@ def neg(b):
         return 1 - b
     if b == U:
         return U
+    if b[0] == "x":
+        return ("x", b[1], 1 - b[2])
     return (("n" if b[0] == "v" else "v"),) + b[1:]
 
 
 def band(a, b):
     if a == 0 or b == 0:
         return 0
+    if (a not in (0, 1, U) and a[0] == "x") or (b not in (0, 1, U) and b[0] == "x"):
+        return b if a == 1 else a if b == 1 else U
     if a == 1:
         return b
     if b == 1:
@@ -43,6 +47,8 @@ def band(a, b):
 def bor(a, b):
     if a == 1 or b == 1:
         return 1
+    if (a not in (0, 1, U) and a[0] == "x") or (b not in (0, 1, U) and b[0] == "x"):
+        return b if a == 0 else a if b == 0 else U
     if a == 0:
         return b
     if b == 0:
@@ -69,6 +75,10 @@ def bxor(a, b):
         return 0
     if a == neg(b):
         return 1
+    if a[0] in ("v", "n") and b[0] in ("v", "n"):
+        # the xor of two different input bits: ('x', {the two bits}, parity)
+        par = (a[0] == "n") ^ (b[0] == "n")
+        return ("x", frozenset({a[1:], b[1:]}), 1 if par else 0)
     return U
 
 
